@@ -90,7 +90,10 @@ TAdd ==
          \* refused: the specification follows the code there (DESIGN.md 5.0).
          dontcare == E.namecheck /\ legal /\ ~PrefixesLegal(LiveNames(tabs), E.parts) /\ E.res \in {"ok", "rejected"}
          accept == IF dontcare THEN E.res = "ok" ELSE legal
-         new == PartTabs(E.parts, NextIndex(tabs), nextTab)
+         \* the caller chooses the update index of its tables: any index from the next one on is legal (a retried transaction
+         \* prepared before a compaction emptied the stack carries a larger one)
+         first == IF "idx" \in DOMAIN E /\ E.idx > NextIndex(tabs) THEN E.idx ELSE NextIndex(tabs)
+         new == PartTabs(E.parts, first, nextTab)
          plain == tabs \o new
          \* a transaction prepared for an update index that is no longer the next one (the caller computed it before
          \* its handle was refreshed) must fail like a stale one: update indices only grow
